@@ -1,6 +1,6 @@
 (* C08 -- The intermediate columnar store is lossless, ordered and randomly addressable. *)
 From Coq Require Import ZArith Arith List Bool.
-From B2Z Require Import Model.Icf Proofs.IcfProofs.
+From B2Z Require Import Model.Icf Proofs.IcfProofs Gen.GenIcfWriter Bridge.BridgeIcfWriter.
 Import ListNotations.
 Open Scope nat_scope.
 
@@ -26,8 +26,8 @@ Proof. exact range_read. Qed.
 Print Assumptions range_read.
 
 Theorem num_records_eq : forall (A : Type) (thr : Z) (parts : list (list (A * Z))),
-  num_records (map (write_partition thr) parts) = length (concat parts).
-Proof. intros. unfold num_records. rewrite values_roundtrip_lemma, map_length. reflexivity. Qed.
+  Icf.num_records (map (write_partition thr) parts) = length (concat parts).
+Proof. intros. unfold Icf.num_records. rewrite values_roundtrip_lemma, map_length. reflexivity. Qed.
 Print Assumptions num_records_eq.
 
 (* summaries: min/max bound every non-sentinel integer and are attained (None iff there is
@@ -45,4 +45,45 @@ Print Assumptions summary_partition_independent.
 Example c08_instance :
   let s := map (write_partition 10%Z) [[(1, 6%Z); (2, 6%Z); (3, 1%Z)]; []; [(4, 20%Z); (5, 1%Z)]] in
   s = [[[1; 2]; [3]]; []; [[4]; [5]]] /\ iter_values s 1 4 = [2; 3; 4].
+Proof. vm_compute. split; reflexivity. Qed.
+
+(* ---- the tie to the source: Gen/GenIcfWriter.v is regenerated from IcfFieldWriter on every run ---- *)
+(* Driven as IcfPartitionWriter drives it (append for every value, one flush on a clean exit), the
+   TRANSLATED writer writes exactly the chunks of the model's write_partition, in order, names each chunk
+   file by the cumulative record count the model's chunk index gives it, writes the index file once, last,
+   with exactly the model's index, and leaves num_records / num_chunks / uncompressed_size equal to the
+   number of values, the number of chunks and the sum of the sizes -- for every value sequence, every size
+   function and every threshold *)
+Theorem translated_writer_is_the_model : forall (A : Type) (thr : Z) (items : list (A * Z)),
+  let '(s, ev) := run thr items in
+  let P := write_partition thr items in
+  chunk_contents ev = P /\
+  chunk_file_names ev = map Z.of_nat (tl (cri P)) /\
+  index_writes ev = [map Z.of_nat (cri P)] /\
+  (exists pre, ev = pre ++ [WriteIndex (map Z.of_nat (cri P))]) /\
+  GenIcfWriter.num_records s = Z.of_nat (length items) /\
+  sum_num_chunks s = Z.of_nat (length P) /\
+  sum_uncompressed s = sizes items.
+Proof. intros A thr items. exact (translated_writer_is_the_model_lemma thr items). Qed.
+Print Assumptions translated_writer_is_the_model.
+
+(* the index arithmetic matched at the head of the source's iter_values is the head of the model's
+   iter_values (which range_read is about), and a task that fails flushes nothing *)
+Theorem translated_read_head_is_the_model : forall (A : Type) (s : list (list (list A))) (start : nat),
+  iter_head (pri s) (fun p => cri (nth p s [])) start =
+  (let sp := ss_right (pri s) start - 1 in
+   let offset := nth sp (pri s) 0 in
+   let p := nth sp s [] in
+   let sc := ss_right (cri p) (start - offset) - 1 in
+   (sp, sc, offset + nth sc (cri p) 0)).
+Proof. intros A s start. exact (iter_head_is_model_head s start). Qed.
+Print Assumptions translated_read_head_is_the_model.
+
+Theorem failed_task_flushes_nothing : flush_on_exit true = false /\ flush_on_exit false = true.
+Proof. exact (conj no_flush_on_error flush_on_clean_exit). Qed.
+Print Assumptions failed_task_flushes_nothing.
+
+Example c08_writer_instance :
+  let '(s, ev) := run 10%Z [(1, 6%Z); (2, 6%Z); (3, 1%Z)] in
+  ev = [WriteChunk 2%Z [1; 2]; WriteChunk 3%Z [3]; WriteIndex [0%Z; 2%Z; 3%Z]] /\ GenIcfWriter.num_records s = 3%Z.
 Proof. vm_compute. split; reflexivity. Qed.
